@@ -34,7 +34,13 @@ import (
 // Rng is splitmix64; every random choice of a run derives from one state seeded by VERIF_SEED.
 type Rng struct{ s uint64 }
 
-func NewRng(seed uint64) *Rng { return &Rng{s: seed*0x9E3779B97F4A7C15 + 0x1234567} }
+// NewRng scrambles the seed first: with a plain multiple of the increment as the start state,
+// consecutive seeds would give the same stream shifted by one draw.
+func NewRng(seed uint64) *Rng {
+	r := &Rng{s: seed*0x9E3779B97F4A7C15 + 0x1234567}
+	r.s = r.U64() ^ (seed * 0xD1B54A32D192ED03)
+	return r
+}
 
 func (r *Rng) U64() uint64 {
 	r.s += 0x9E3779B97F4A7C15
